@@ -704,7 +704,13 @@ class TimestampConverter:
     @staticmethod
     def to_unix_millis(dt: datetime.datetime | None) -> int | None:
         """Convert datetime to Unix timestamp in milliseconds."""
-        return int(dt.timestamp() * 1000) if dt else None
+        if not dt:
+            return None
+        # Exact integer arithmetic: int(dt.timestamp() * 1000) loses a millisecond for
+        # values such as 1.001 s, where the float product is 1000.9999999999999.
+        aware = dt if dt.tzinfo is not None else dt.astimezone()
+        epoch = datetime.datetime(1970, 1, 1, tzinfo=datetime.UTC)
+        return (aware - epoch) // datetime.timedelta(milliseconds=1)
 
     @staticmethod
     def from_unix_millis(ms: int | None) -> datetime.datetime | None:
